@@ -8,7 +8,7 @@ import sys, os, json, time, argparse, importlib, hashlib, traceback, random as _
 import multiprocessing as mp
 
 from . import VERIF_ROOT, REPO_ROOT
-from .core import HarnessError
+from .core import HarnessError, NonTermination
 
 EVID_DIR = os.path.join(VERIF_ROOT, "evidence")
 REPLAY_DIR = os.path.join(VERIF_ROOT, "replays")
@@ -53,6 +53,12 @@ def _worker(args):
         res["wall"] = time.time() - t0
         res["spec"] = spec
         return res
+    except NonTermination as e:
+        prop = modname.split(".")[-1].upper()
+        entry = spec.get("fn") or spec.get("program") or spec.get("kind") or "?"
+        return {"execs": 1, "spec": spec, "violations": [{
+            "prop": prop, "key": "%s|%s|any|nontermination" % (prop, entry), "prefix": list(e.prefix),
+            "msg": "%s: %s (first choices %r)" % (entry, e, list(e.prefix)[:20]), "observed": None, "expected": None}]}
     except HarnessError as e:
         return {"harness_error": "%s: %s" % (type(e).__name__, e), "spec": spec,
                 "tb": traceback.format_exc()}
